@@ -174,6 +174,34 @@ def getDerived (b : Blob) (key : String) (_ : Chain) : Res :=
 def setDerived (b : Blob) (key : String) (_ : Chain) : Res :=
   derivedAccess b key (clearError [])
 
+/-! ### VMCOREINFO look-ups by name: `kdump_vmcoreinfo_symbol`, `kdump_vmcoreinfo_line` -/
+
+/-- what the name handed to a VMCOREINFO look-up meets -/
+inductive VLook
+  | noOs         -- no OS type is set: `ostype_attr` has no directory to look in
+  | noTable      -- `<ostype>.vmcoreinfo.SYMBOL` / `.lines` has no value (no VMCOREINFO for this OS)
+  | dot          -- the name starts with '.', the dictionary's "no fallback" mark: never looked up
+  | miss         -- no such node below the table, or a node of another type (a directory)
+  | cleared      -- the node is there but has no value
+  | found
+  deriving DecidableEq, Repr
+
+/-- `ostype_attr(ctx, "vmcoreinfo.SYMBOL" | "vmcoreinfo.lines", &base)` -/
+def ostypeAttr (l : VLook) (os table : String) (c : Chain) : Res :=
+  match l with
+  | .noOs => setError c kdumpNODATA "OS type is not set"
+  | .noTable => setError c kdumpNODATA (os ++ "." ++ table ++ " is not set")
+  | _ => (0, c)
+
+/-- `kdump_vmcoreinfo_symbol` (`sym`) / `kdump_vmcoreinfo_line`: clear, find the table, look the name up -/
+def vmcoreinfoLookup (sym : Bool) (l : VLook) (os : String) (_ : Chain) : Res :=
+  let r := ostypeAttr l os (if sym then "vmcoreinfo.SYMBOL" else "vmcoreinfo.lines") (clearError [])
+  if r.1 ≠ 0 then r
+  else match l with
+    | .dot | .miss => setError r.2 kdumpNODATA (if sym then "Symbol not found" else "No such VMCOREINFO line")
+    | .cleared => setError r.2 kdumpNODATA (if sym then "Symbol has no value" else "Data has been cleared")
+    | _ => (0, r.2)
+
 /-! ### Allocations whose size comes from the dump file -/
 def kdumpSYSTEM : Int := Kdf.Gen.Status.kdumpCodes.getD 1 99999
 
